@@ -137,6 +137,7 @@ def parseCmd {S} (cd : Codec S) (toks : List String) : Option (Cmd S) :=
   | ["show", v] => some (.show v)
   | ["idx", v, i] => do pure (.idx v (← parseNats i))
   | ["idxflat", v, i] => do pure (.idxflat v (← i.toNat?))
+  | ["convat", a, f, sr, sc', i] => do pure (.convat a f (← sr.toNat?) (← sc'.toNat?) (← parseNats i))
   | ["eq", a, b] => some (.eq a b)
   | ["same", a, b] => some (.same a b)
   | ["samegrad", a, b] => some (.samegrad a b)
